@@ -337,7 +337,7 @@ def history_template(rnd):
 
 class C19(Prop):
     id = 'C19'
-    quick_cases = 400
+    quick_cases = 600
     thorough_cases = 8000
     rule = ('random charts (code inside the modelled subset, no eventless loops) × feature files of 4–6 scenarios × 4–10 '
             'steps written in the documented spelling of the predefined steps (send with and without parameter, wait, '
